@@ -300,10 +300,15 @@ def render_cmp(sch, lhs, op, lay):
             k, a, b = it
             if k in ("r4", "r6"):
                 t = "v4" if k == "r4" else "v6"
-                items.append(render_ip(t, a) if a == b else render_ip(t, a) + ".." + render_ip(t, b))
+                items.append(render_ip(t, a) + ".." + render_ip(t, b))
             else:
                 t = "v4" if k == "c4" else "v6"
-                items.append(render_ip(t, a) + "/" + str(b))
+                host = (k == "c4" and b == 32) or (k == "c6" and b == 128)
+                # a single address is a host CIDR block
+                if host and (lay.rng is None or lay.rng.random() < 0.5):
+                    items.append(render_ip(t, a))
+                else:
+                    items.append(render_ip(t, a) + "/" + str(b))
         return l + lay.sp() + "in" + lay.sp() + "{" + lay.osp() + lay.sp().join(items) + lay.osp() + "}"
     if kind == "inlist":
         return l + lay.sp() + "in" + lay.sp() + "$" + op[2].decode()
@@ -339,6 +344,10 @@ def render_lexpr(sch, e, lay):
 
 
 # ---------------------------------------------------------------- typed AST generation
+
+def rhs_type(r):
+    return {"i": "int", "s": "bytes", "v4": "ip", "v6": "ip"}[r[0]]
+
 
 def ty_index(t, idx):
     for i in idx:
@@ -394,6 +403,109 @@ class Gen:
             elif want_prim is None or t == want_prim:
                 if isinstance(t, str):
                     return fi, idx, t, n_each
+        return None
+
+    # ---- general value sources: field paths and function calls
+    def index_further(self, t, allow_each, force_prim=False):
+        """extend a path from type t; returns (idx, final type, n_each)"""
+        rng = self.rng
+        idx = []
+        n_each = 0
+        while not isinstance(t, str):
+            if not force_prim and rng.random() < 0.35:
+                break
+            if "index" not in self.f and "each" not in self.f:
+                break
+            kind, elt = t
+            if allow_each and "each" in self.f and rng.random() < 0.45:
+                idx.append("each")
+                n_each += 1
+            elif "index" in self.f:
+                idx.append(("a", rng.choice([0, 0, 1, 2, 3, 5, (1 << 32) - 1])) if kind == "array"
+                           else ("k", rng.choice(KEY_POOL)))
+            else:
+                break
+            t = elt
+        return idx, t, n_each
+
+    def gen_arg_for(self, kind, t, depth, mapped=False):
+        """an argument expression for a parameter of kind/type; mapped: may use [*] (first argument only).
+        returns (arg, used_each)"""
+        rng = self.rng
+        if kind in ("literal", "both") and isinstance(t, str) and t != "bool" and (kind == "literal" or rng.random() < 0.3):
+            return ("lit", gen_prim(rng, t)), False
+        if kind == "literal":
+            return None
+        if t == "bool" and rng.random() < 0.5:
+            e = self.gen_logical(False, depth + 1)
+            if e and arg_logical_ok(e) and not (e[0] == "cmp" and e[2] == "istrue"):
+                return ("al", e), False
+        if t == arr("bool") and rng.random() < 0.5 and "vec" in self.f:
+            e = self.gen_logical(True, depth + 1)
+            if e and arg_logical_ok(e) and not (e[0] == "cmp" and e[2] == "istrue"):
+                return ("al", e), False
+        for _ in range(4):
+            r = self.gen_iexpr(lambda x: x == t, mapped, depth + 1)
+            if r:
+                ie, _, n_each = r
+                if n_each > 0 and not mapped:
+                    continue
+                return ("ai", ie), n_each > 0
+        return None
+
+    def gen_call(self, depth):
+        """returns (call iexpr without trailing idx, result type) or None"""
+        rng = self.rng
+        if not self.sch.fns:
+            return None
+        fi = rng.randrange(len(self.sch.fns))
+        name, lib = self.sch.fns[fi]
+        sig = LIB[lib]
+        args = []
+        mapped = False
+        if sig is None:  # concat: >= 2 arguments of one type (Bytes or an array type)
+            t = rng.choice(["bytes", "bytes", arr("bytes"), arr("int"), arr("bool")])
+            n = rng.choice([2, 2, 3, 4])
+            for i in range(n):
+                a = self.gen_arg_for("both" if isinstance(t, str) else "field", t, depth, mapped=False)
+                if a is None:
+                    return None
+                args.append(a[0])
+            ret = t
+        else:
+            params, opts, ret = sig
+            nopt = rng.randrange(0, len(opts) + 1)
+            plist = list(params) + [(k, rhs_type(d)) for k, d in opts[:nopt]]
+            for i, (kind, t) in enumerate(plist):
+                a = self.gen_arg_for(kind, t, depth, mapped=(i == 0 and "each" in self.f and rng.random() < 0.4))
+                if a is None:
+                    return None
+                args.append(a[0])
+                if i == 0 and a[1]:
+                    mapped = True
+        rt = arr(ret) if mapped else ret
+        return ("call", fi, tuple(args)), rt
+
+    def gen_iexpr(self, pred, allow_each, depth=0, tries=None):
+        """an index expression whose final type satisfies pred; returns (iexpr, type, n_each)"""
+        rng = self.rng
+        tries = tries or (25 if depth == 0 else 6)
+        for _ in range(tries):
+            if "call" in self.f and depth < self.max_depth and rng.random() < 0.35:
+                c = self.gen_call(depth)
+                if not c:
+                    continue
+                base, t0 = c
+            else:
+                fi = rng.randrange(len(self.sch.fields))
+                base, t0 = ("field", fi), self.sch.fields[fi][1]
+            idx, t, n_each = self.index_further(t0, allow_each)
+            if pred(t):
+                return base + tuple(idx), t, n_each
+            # try to reach a primitive
+            idx2, t2, n2 = self.index_further(t, allow_each, force_prim=True)
+            if pred(t2):
+                return base + tuple(idx) + tuple(idx2), t2, n_each + n2
         return None
 
     # ---- comparison operators for a primitive type
@@ -458,16 +570,25 @@ class Gen:
         raise ValueError(t)
 
     # ---- simple expressions (comparison / paren / not / quantifier)
-    def gen_cmp(self, vec):
+    def gen_cmp(self, vec, depth=0):
         """a comparison of type Bool (vec=False) or Array(Bool) (vec=True)"""
         rng = self.rng
         for _ in range(30):
             if vec and rng.random() < 0.2:
                 # bare container of booleans
-                p = self.paths_to(want_ty=rng.choice([arr("bool"), mp("bool")]))
+                p = self.paths_to(want_ty=rng.choice([arr("bool"), mp("bool")] if "mapbool" in self.f else [arr("bool")]))
                 if p and p[3] == 0:
                     return ("cmp", ("field", p[0]) + tuple(p[1]), "istrue")
                 continue
+            if "call" in self.f:
+                want = rng.choice(PRIMS)
+                r = self.gen_iexpr(lambda x: x == want, vec, depth)
+                if not r:
+                    continue
+                ie, t, n_each = r
+                if vec != (n_each > 0):
+                    continue
+                return ("cmp", ie, self.gen_op(t))
             p = self.paths_to(want_prim=rng.choice(PRIMS), allow_each=vec)
             if not p:
                 continue
@@ -496,9 +617,14 @@ class Gen:
                     if p and p[3] == 0:
                         return ("qi", q, ("field", p[0]) + tuple(p[1]))
                 inner = self.gen_logical(True, depth + 1)
-                if inner:
+                if inner and arg_logical_ok(inner):
+                    if inner[0] == "cmp" and inner[2] == "istrue":
+                        # `any(x)` with a bare value is an index-expression argument
+                        if "each" in inner[1]:
+                            return self.gen_cmp(vec, depth)
+                        return ("qi", q, inner[1])
                     return ("ql", q, inner)
-        return self.gen_cmp(vec)
+        return self.gen_cmp(vec, depth)
 
     def gen_logical(self, vec, depth=0):
         """expression in the parser's normal form: or-list of xor-lists of and-lists of simples"""
@@ -530,6 +656,20 @@ class Gen:
             if e is not None:
                 return e
         raise RuntimeError("could not generate a filter")
+
+
+def leftmost_simple(e):
+    while e[0] == "comb":
+        e = e[2]
+    return e
+
+
+def arg_logical_ok(e):
+    """A logical expression used as an argument of any()/all()/a function is parsed as a whole only if it is a
+    single comparison or starts with '(' / not / a quantifier (FunctionCallArgExpr::lex_with)."""
+    if e[0] == "cmp":
+        return True
+    return leftmost_simple(e)[0] in ("paren", "not", "ql", "qi")
 
 
 def count_nodes(e, kinds):
